@@ -133,6 +133,16 @@ func (it *stressIter) add(w *swk) {
 	}
 }
 
+func panicString(r any) string {
+	switch v := r.(type) {
+	case string:
+		return v
+	case error:
+		return v.Error()
+	}
+	return "panic of unknown type"
+}
+
 func gosched(n int) {
 	for i := 0; i < n; i++ {
 		runtime.Gosched()
@@ -220,7 +230,7 @@ func jitterHook(p string) {
 func call(d *daemon.OrderedDaemon, w *swk) {
 	defer func() {
 		if r := recover(); r != nil {
-			w.pan = fmt.Sprint(r)
+			w.pan = panicString(r)
 		}
 		w.callRet = tick()
 		if w.target != nil {
@@ -320,7 +330,7 @@ func stressOne(c *vf.Ctx, seed int64, batch, iter int, race bool) {
 			defer wg.Done()
 			defer func() {
 				if r := recover(); r != nil {
-					m := fmt.Sprint(r)
+					m := panicString(r)
 					shutPanic.CompareAndSwap(nil, &m)
 				}
 			}()
@@ -443,7 +453,7 @@ func stressOne(c *vf.Ctx, seed int64, batch, iter int, race bool) {
 	}
 }
 
-func runStress(c *vf.Ctx, batch, from, iters int, race bool) {
+func runStress(c *vf.Ctx, batch, from, iters int, race bool, repeat int) {
 	seeds := c.Rand(fmt.Sprintf("stress/%d/%v", batch, race))
 	jitSeed = uint64(seeds.Int63())
 	daemon.VerifYield = jitterHook
@@ -457,6 +467,13 @@ func runStress(c *vf.Ctx, batch, from, iters int, race bool) {
 			c.FlushStats()
 		}
 		c.Mark(strconv.Itoa(i))
-		stressOne(c, s, batch, i, race)
+		// repeat > 1 (replay only): the plan of an iteration is fixed by its seed, the
+		// schedule is not; re-run the same plan until the schedule reproduces the finding
+		for r := 0; r < repeat; r++ {
+			stressOne(c, s, batch, i, race)
+			if r > 0 && c.Get("stress_window_hits") > 0 {
+				break
+			}
+		}
 	}
 }
